@@ -194,6 +194,16 @@ def sweep(ctx, n):
                         fails.append({"key": f"non-finite:Cuboid:near-edge:{f}", "desc": f"get{f} is not finite at an observer a relative 1e-14 … 1e-8 off an edge line of a Cuboid",
                                       "replay": {"class": "Cuboid", "kw": c["kw"], "observer": c["obs"][near[0]], "field": f}})
                     bad = [j for j in bad if j not in near]
+                if bad and (c["cls"] == "Dipole" or (c["cls"] == "Sphere" and c["variant"] == "zero-size")):
+                    # (audit hardening) the recorded findings non-finite:Dipole:* / non-finite:Sphere:zero-size:* are about observers at
+                    # denormal distance (r**5 underflows, |obs| < ~1e-65); a non-finite value at any OTHER observer must not inherit
+                    # that key, or a new defect would be printed as KNOWN-FINDING
+                    far = [j for j in bad if max(abs(x) for x in c["obs"][j]) >= 1e-60]
+                    if far:
+                        fails.append({"key": f"non-finite:{c['cls']}:{c['variant']}:{f}:ordinary-distance",
+                                      "desc": f"get{f} is not finite at a finite observer that is NOT at denormal distance from the source position",
+                                      "replay": {"class": c["cls"], "kw": c["kw"], "observer": c["obs"][far[0]], "field": f}})
+                    bad = [j for j in bad if j not in far]
                 if bad:
                     j = bad[0]
                     fails.append({"key": f"non-finite:{c['cls']}:{c['variant']}:{f}", "desc": f"get{f} is not finite at a finite observer",
